@@ -13,7 +13,7 @@ DISTINCT = ("distinct_nontrivial = number of distinct (definition hash, mode, ar
 
 PROPS = {
     "C01": {
-        "cases": {"quick": 480, "thorough": 24000},
+        "cases": {"quick": 4800, "thorough": 160000},
         "rule": "Per case one random definition of the conventional fragment (0-8 named items of "
                 "every arity, positional suffix or command tree up to 3 levels, aliases). Vectors: "
                 "derivations in random order/spelling (value known by construction), single-edit "
@@ -38,7 +38,7 @@ PROPS = {
                       "inconclusive, not a verdict), rustc, std.",
     },
     "C04": {
-        "cases": {"quick": 640, "thorough": 40000},
+        "cases": {"quick": 640, "thorough": 32000},
         "rule": "Per case one random definition of any invariant-respecting shape x byte-string "
                 "vectors (noise over the definition's names, junk items, invalid UTF-8, 1-4 KiB "
                 "clusters, sentences with hostile values) x modes {parse, completion revisions "
@@ -66,7 +66,7 @@ PROPS = {
                       "normalised outcomes (value, monochrome text).",
     },
     "C02": {
-        "cases": {"quick": 960, "thorough": 48000},
+        "cases": {"quick": 9600, "thorough": 320000},
         "rule": "Per case one random any-free definition (hidden items, aliases, non-ASCII names, "
                 "adjacent-restricted arguments, groups, commands) x derivations with hostile "
                 "values (empty, `=`, leading dashes, spaces, non-ASCII, invalid UTF-8 for "
@@ -93,7 +93,7 @@ PROPS = {
                       "interchangeable (taken from the statement and src/params.rs docs).",
     },
     "C03": {
-        "cases": {"quick": 960, "thorough": 48000},
+        "cases": {"quick": 9600, "thorough": 320000},
         "rule": "Per case one random definition without any/adjacent groups x derivations (valid, "
                 "and invalid ones with an occurrence dropped, doubled or a foreign flag added); "
                 "each is linearised in canonical order and in random permutations of its named "
@@ -113,7 +113,7 @@ PROPS = {
         "level_note": "Trusted: order_units produces only permutations the statement allows.",
     },
     "C05": {
-        "cases": {"quick": 960, "thorough": 48000},
+        "cases": {"quick": 9600, "thorough": 320000},
         "rule": "Per case one random any-free definition x accepted derivations; every accepted "
                 "line must return exactly the denoted value (conservation/attribution with unique "
                 "tokens) and, with one foreign flag / `--name=value` / surplus word / duplicate "
@@ -139,7 +139,7 @@ PROPS = {
                       "run_subparser returns Ok.",
     },
     "C06": {
-        "cases": {"quick": 960, "thorough": 48000},
+        "cases": {"quick": 9600, "thorough": 240000},
         "rule": "Per case one random definition with typed (u32/i64/String/OsString) arguments "
                 "and positionals under optional/many/some/fallback/fallback_with/count/last, guard "
                 "and parse steps, nested in alternatives, adjacent groups and commands. Accepted "
@@ -165,7 +165,7 @@ PROPS = {
         "level_note": "Trusted: the derivation generator and the fixed guard/parse predicates.",
     },
     "C07": {
-        "cases": {"quick": 1600, "thorough": 64000},
+        "cases": {"quick": 16000, "thorough": 480000},
         "rule": "Per case one definition with a choice of 2-4 alternatives with disjoint names "
                 "(required flags, arguments, groups, soft alternatives that succeed on nothing, "
                 "commands; bare, optional, defaulted, many, some) among other fields. Derivations "
@@ -186,7 +186,7 @@ PROPS = {
                       "(leftmost consumed item, ties to the first listed).",
     },
     "C08": {
-        "cases": {"quick": 960, "thorough": 48000},
+        "cases": {"quick": 9600, "thorough": 320000},
         "rule": "Per case one command tree of depth <= 3 from the conventional fragment (names "
                 "distinct across levels, aliases, optional commands). Sentences judged by "
                 "derivation and recogniser; a deeper level's option moved left of its command "
@@ -206,7 +206,7 @@ PROPS = {
         "level_note": "Trusted: reference recogniser and derivation generator (cross-checked).",
     },
     "C09": {
-        "cases": {"quick": 1600, "thorough": 64000},
+        "cases": {"quick": 16000, "thorough": 480000},
         "rule": "Per case one definition with 0-3 positionals of every strictness/arity, named "
                 "items and sometimes an optional subcommand. Derivations with `--` at every legal "
                 "split; words right of it are replaced by dash-looking data (`--`, `--help`, "
@@ -225,7 +225,7 @@ PROPS = {
         "level_note": "Trusted: derivation generator (declaration-order assignment of words).",
     },
     "C10": {
-        "cases": {"quick": 960, "thorough": 48000},
+        "cases": {"quick": 9600, "thorough": 240000},
         "rule": "Per case one random any-free definition (commands to depth 3, adjacent groups, "
                 "custom help/version names, version configured or not) with a unique header per "
                 "level. Base lines: valid derivations and invalid ones (unit dropped, doubled, "
@@ -248,7 +248,7 @@ PROPS = {
                       "as entered).",
     },
     "C19": {
-        "cases": {"quick": 1600, "thorough": 64000},
+        "cases": {"quick": 16000, "thorough": 480000},
         "rule": "Per case one definition with 1-2 adjacent groups (flag + 1-3 positionals, flag or "
                 "argument + named arguments with optional members; bare, optional, many) among "
                 "named items and trailing positionals. Derivations with 0-3 contiguous blocks must "
@@ -271,7 +271,7 @@ PROPS = {
                       "back to argv positions (tokens are unique per line).",
     },
     "C11": {
-        "cases": {"quick": 480, "thorough": 8000},
+        "cases": {"quick": 3200, "thorough": 48000},
         "rule": "Per case one random definition compiled into the harness executable; the harness "
                 "re-executes itself with argv[0] chosen freely (plain, path, non-ASCII, non-UTF-8 "
                 "file name) and the vector (sentences, hostile values, byte noise incl. invalid "
@@ -297,7 +297,7 @@ PROPS = {
                       "coordinates; prediction uses bpaf's own Doc rendering (Display/monochrome).",
     },
     "C18": {
-        "cases": {"quick": 960, "thorough": 48000},
+        "cases": {"quick": 4800, "thorough": 160000},
         "rule": "Per case one random definition whose flags/arguments declare environment "
                 "variables (1-2 per item, some items environment-only) under every wrapper, at "
                 "root and inside a command. Rounds: (A) random valid environment state x a "
@@ -322,7 +322,7 @@ PROPS = {
         "level_note": "Trusted: derivation generator's model of the documented precedence.",
     },
     "C13": {
-        "cases": {"quick": 160, "thorough": 8000},
+        "cases": {"quick": 480, "thorough": 12000},
         "rule": "Per case one random definition whose help/description/header/footer strings come "
                 "from a grammar (1-3 paragraphs with markers, hard line breaks, indented code "
                 "blocks, words of 1-200 characters, non-ASCII, tabs and control characters, long "
@@ -347,7 +347,7 @@ PROPS = {
                       "produced by the same renderer with an unreachable width).",
     },
     "C12": {
-        "cases": {"quick": 800, "thorough": 40000},
+        "cases": {"quick": 6400, "thorough": 160000},
         "rule": "Per case one random definition (all shapes: wrappers, group_help, "
                 "with_group_help, hidden parts, aliases, adjacent groups, alternatives, nested "
                 "commands, custom help/version names, descr/header/footer) and, for every command "
@@ -372,7 +372,7 @@ PROPS = {
                       "two-space gap before help text).",
     },
     "C16": {
-        "cases": {"quick": 800, "thorough": 40000},
+        "cases": {"quick": 2400, "thorough": 64000},
         "rule": "Per case one random definition (nested commands to depth 3, groups, all "
                 "wrappers, hidden parts) whose help/description/header/footer/group/metavariable "
                 "strings carry unique markers and roff/HTML/markdown metacharacters at the start, "
@@ -397,7 +397,7 @@ PROPS = {
         "level_note": "Trusted: the lexers' tables of bpaf's own tags, requests and escapes.",
     },
     "C14": {
-        "cases": {"quick": 960, "thorough": 48000},
+        "cases": {"quick": 6400, "thorough": 240000},
         "rule": "Per case one random definition (flags, arguments with completers, positionals, "
                 "shell completers, commands to depth 3, hidden parts, alternatives, adjacent "
                 "groups); sentences are cut after k complete units and completion (revision 0) is "
@@ -423,7 +423,7 @@ PROPS = {
         "level_note": "Trusted: the harness's reading of which names are visible/entered.",
     },
     "C15": {
-        "cases": {"quick": 320, "thorough": 12000},
+        "cases": {"quick": 480, "thorough": 12000},
         "rule": "Per case one random definition (completers with descriptions and groups, "
                 "complete_shell File/Dir/Raw/Nothing with masks, group_help, commands) whose help, "
                 "group and mask strings carry quotes, backslashes, `$(canary)`, backticks, `;`, "
@@ -483,7 +483,7 @@ PROPS = {
     "C17": {
         "special": "c17",
         "engine": "derive_gen",
-        "cases": {"quick": (1, 150), "thorough": (8, 400)},
+        "cases": {"quick": (2, 200), "thorough": (12, 400)},
         "rule": "bin/derive_gen.py emits, from a seed, a crate of struct/enum definitions carrying "
                 "#[derive(Bpaf)] (implicit and explicit short/long/env names, kebab-case "
                 "conversion, single-letter names, bool/()/Option/Vec/plain fields, explicit "
